@@ -1,5 +1,6 @@
 // C07 -- grid neighbourhoods match the grid geometry on every accessor.
 #define PROPERTY_ID "C07"
+#define VH_HAS_ENUM
 #include "adapter.hpp"
 #include "gen.hpp"
 #include "harness.hpp"
@@ -173,6 +174,42 @@ namespace
     }
 }
 
+// Complete enumeration of small grids: every raster shape 2..5 x 2..5, three connectivities, both
+// cache policies, four loop configurations (none / horizontal / vertical / both; other borders
+// fixed value), anisotropic spacing; every profile size 2..6, looped or not, both cache policies.
+// Each enumerated grid gets the full sweep of all nodes and accessors.
+static size_t enum_count()
+{
+    return 16 * 3 * 2 * 4 + 5 * 2 * 2;
+}
+static std::vector<uint8_t> enum_case(size_t k)
+{
+    if (k < 384)
+        return { 0xEE, 0, static_cast<uint8_t>(k % 3), static_cast<uint8_t>((k / 3) % 2), static_cast<uint8_t>((k / 6) % 4), static_cast<uint8_t>(2 + (k / 24) % 4), static_cast<uint8_t>(2 + (k / 96) % 4) };
+    k -= 384;
+    return { 0xEE, 1, 0, static_cast<uint8_t>(k % 2), static_cast<uint8_t>((k / 2) % 2), 1, static_cast<uint8_t>(2 + (k / 4) % 5) };
+}
+
+static va::GridSpec enumerated_spec(vg::Src& s)
+{
+    va::GridSpec sp;
+    bool profile = s.u8() % 2 == 1;
+    sp.kind = profile ? va::K_PROFILE : va::K_RASTER;
+    sp.connect = static_cast<int>(s.u8() % 3);
+    sp.cache = s.u8() % 2 == 0;
+    size_t loop = s.u8() % 4;
+    sp.rows = profile ? 1 : 2 + s.u8() % 4;
+    if (profile)
+        s.u8();
+    sp.cols = 2 + s.u8() % 5;
+    sp.dy = 1.5;
+    sp.dx = 0.25;
+    bool hl = loop & 1, vl = loop & 2;
+    sp.border[0] = sp.border[1] = hl ? va::ST_LOOPED : va::ST_FIXED_VALUE;
+    sp.border[2] = sp.border[3] = (vl && !profile) ? va::ST_LOOPED : va::ST_FIXED_VALUE;
+    return sp;
+}
+
 static void check_case(vg::Src& s, vh::Ctx& c)
 {
     vg::GridOpts o;
@@ -180,7 +217,15 @@ static void check_case(vg::Src& s, vh::Ctx& c)
     o.valid_only = true;
     o.max_side = c.arg > 0 ? static_cast<size_t>(c.arg) : 10;
     o.profile_max = 30;
-    va::GridSpec sp = vg::gen_grid(s, o);
+    va::GridSpec sp;
+    if (s.n > 0 && s.d[0] == 0xEE)
+    {
+        s.u8();
+        sp = enumerated_spec(s);
+        c.label("enumerated-small-grid");
+    }
+    else
+        sp = vg::gen_grid(s, o);
     vm::ModelGrid m = vm::build_model(sp);
     va::GridSpec sp2 = sp;
     sp2.cache = !sp.cache;
